@@ -24,6 +24,7 @@ def main():
             rep = json.load(f)
         rc = mod.replay(ctx, rep)
         sys.exit(rc)
+    ctx.clean_replays()
     try:
         mod.run(ctx)
     except Exception:
